@@ -232,9 +232,14 @@ type world struct {
 	situation string // steady | mid-prune | after-cancel | after-failed-write | after-crash-mid-prune | after-restart
 	quiescent bool
 	isFork    bool
-	noState   bool            // long bare chains: no historical state observations (covered by the other scenarios)
-	extra     map[uint64]bool // blocks always inside the observation window
-	lastLow   uint64          // lowest durable floor seen at the previous observation (observation window)
+	// min-age: the pruner compares block timestamps with wall-clock now-minAge; the harness recomputes that
+	// cut-off from the same clock whenever it predicts a decision, and drops the case if the clock moved
+	// across a block timestamp in between (never observed on an idle machine; seen once under heavy load)
+	minAgeDur  time.Duration
+	procSample uint64
+	noState    bool            // long bare chains: no historical state observations (covered by the other scenarios)
+	extra      map[uint64]bool // blocks always inside the observation window
+	lastLow    uint64          // lowest durable floor seen at the previous observation (observation window)
 	// dirtyUpTo: blocks below it may have been half-pruned by a prune that was interrupted by a crash or a
 	// write error (its target was at most the allowed floor of that moment); only a prune that completes at or
 	// above it sweeps them. 0 = nothing pending.
@@ -326,11 +331,22 @@ func (w *world) startProc() {
 		w.proc.stop()
 	}
 	pc := w.pcfg
+	var s0 uint64
 	if w.cutoff > 0 {
 		// min-age such that now-minAge falls on the scenario's cutoff; the chain's timestamps are years old
 		pc.MinAge = time.Since(time.Unix(int64(w.cutoff), 0))
+		w.minAgeDur = pc.MinAge
+		s0 = w.sampleAt(w.cutoffNow())
 	}
 	p, err := startPruner(w.nodeDB, w.floor, pc)
+	if w.cutoff > 0 {
+		// Run has seeded its sample somewhere between the two readings of the clock
+		if s1 := w.sampleAt(w.cutoffNow()); s1 != s0 {
+			w.broken = true
+			w.res.Hit("skipped:clock-crossed-a-block-timestamp")
+		}
+		w.procSample = s0
+	}
 	if err != nil {
 		w.violate("pruner-start-hangs-"+w.situation, err.Error())
 		w.broken = true
@@ -353,7 +369,17 @@ func (w *world) close() {
 
 // sampleNow is what seedFloor/sampleHeight compute at a process start: the lowest block at or above
 // the oldest retained one whose timestamp is >= cutoff (chain height if there is none).
-func (w *world) sampleNow() uint64 {
+func (w *world) sampleNow() uint64 { return w.procSample }
+
+// cutoffNow is the pruner's min-age cut-off at this moment (now - minAge, in unix seconds).
+func (w *world) cutoffNow() uint64 {
+	if w.minAgeDur == 0 {
+		return w.cutoff
+	}
+	return uint64(time.Now().Add(-w.minAgeDur).Unix())
+}
+
+func (w *world) sampleAt(cutoff uint64) uint64 {
 	if w.cutoff == 0 || w.height < 0 {
 		return 0
 	}
@@ -362,7 +388,7 @@ func (w *world) sampleNow() uint64 {
 		return 0
 	}
 	for n := oldest; n <= uint64(w.height); n++ {
-		if w.ch.g.Bundles[n].Block.Timestamp >= w.cutoff {
+		if w.ch.g.Bundles[n].Block.Timestamp >= cutoff {
 			return n
 		}
 	}
@@ -371,8 +397,9 @@ func (w *world) sampleNow() uint64 {
 
 // minAgeBlock: lowest block of the chain that is younger than the min-age (height+1 if none).
 func (w *world) minAgeBlock() uint64 {
+	cutoff := w.cutoffNow() // the cut-off only advances: evaluated now, the cap is never stricter than the pruner's
 	for n := 0; n <= w.height; n++ {
-		if w.ch.g.Bundles[n].Block.Timestamp >= w.cutoff {
+		if w.ch.g.Bundles[n].Block.Timestamp >= cutoff {
 			return uint64(n)
 		}
 	}
@@ -542,11 +569,12 @@ func (w *world) event(kind string, n, ts uint64, plan prunePlan) eventResult {
 	w.rec("event-"+kind, n, plan.String())
 	w.res.Hit("op:event-" + kind)
 	var line string
+	var within0 bool
 	if kind == "l1" {
 		line = fmt.Sprintf("evl1 %d", n)
 	} else {
-		within := w.cutoff > 0 && ts >= w.cutoff
-		line = fmt.Sprintf("evl2 %d %s", n, b01(within))
+		within0 = w.cutoff > 0 && ts >= w.cutoffNow()
+		line = fmt.Sprintf("evl2 %d %s", n, b01(within0))
 	}
 	mStart := w.ask(line)
 	prevSituation := w.situation
@@ -610,6 +638,12 @@ func (w *world) event(kind string, n, ts uint64, plan prunePlan) eventResult {
 		evs, err = w.proc.sendL2(n, ts)
 	}
 	w.proc.hdb.arm(nil, nil)
+	if kind == "l2" && w.cutoff > 0 && within0 != (ts >= w.cutoffNow()) {
+		// the clock crossed this block's timestamp while the event was in flight: the prediction is void
+		w.broken = true
+		w.res.Hit("skipped:clock-crossed-a-block-timestamp")
+		return res
+	}
 	if err != nil {
 		w.violate("pruner-hangs-"+w.situation, fmt.Sprintf("event %s: %v", line, err))
 		w.broken = true
